@@ -206,6 +206,23 @@ def run (case impl : String) : String × String :=
           | none => "unparsed"
         (out, v)
     | _, _, _, _, _ => ("bad-case", "na")
+  -- a memory cache in front of redis; a positive answer (which the memory cache may have rejected as too big),
+  -- then an error response for the same question: set-if-absent is decided by redis when there is one, so the
+  -- error response is refused and the lookup is the positive answer
+  | some "twotier" =>
+    let got := kvGet (words impl) "got"
+    ("got=pos", if impl == "panic" then "viol:panic"
+      else if got == some "pos" then "ok"
+      else if got == some "neg" then "viol:C08:error-response-displaced-live-positive"
+      else if got == some "miss" then "viol:C07:live-entry-missed"
+      else "unparsed")
+  -- redis only: the cache is in use from the moment the client has connected
+  | some "rstart" =>
+    let got := kvGet (words impl) "got"
+    ("got=hit", if impl == "panic" then "viol:panic"
+      else if got == some "hit" then "ok"
+      else if got == some "miss" then "viol:C07:cached-answer-missed-after-start"
+      else "unparsed")
   | _ => ("bad-case", "na")
 
 end MosVerif.RedisCache
